@@ -647,14 +647,16 @@ class Poly2d:
         tol = 1e-6
         self._cc = cc
         self._A = A
-        self._safe_to_grid = False
 
-        sx, zx, tx, zy, sy, ty, *_ = A
-        if abs(zx) < tol and abs(zy) < tol:
-            self._norm = lambda x, y: (np.polyval([sx, tx], x), np.polyval([sy, ty], y))
-            self._safe_to_grid = True
-        else:
-            self._norm = lambda x, y: A * (x, y)
+        _, zx, _, zy, *_ = A
+        self._safe_to_grid = abs(zx) < tol and abs(zy) < tol
+
+    def _norm(self, x: Any, y: Any) -> Tuple[Any, Any]:
+        # plain method rather than a closure: keeps instances picklable
+        if self._safe_to_grid:
+            sx, _, tx, _, sy, ty, *_ = self._A
+            return (np.polyval([sx, tx], x), np.polyval([sy, ty], y))
+        return self._A * (x, y)
 
     def __call__(self, x: Any, y: Any = None) -> Any:
         """
